@@ -103,6 +103,9 @@ def _malformed(ctx, obj, R, fixedvals, free, sig, case):
     trials.append(("unknown", (), dict(kw, zz_unknown=np.ones(1))))
     trials.append(("double", (kw[names[0]],), dict(kw)))
     trials.append(("toomany", tuple(kw[n] for n in names) + (np.ones(1),), {}))
+    for v in fixedvals:          # a value for a variable that is already fixed: unknown to / doubly specified for this object
+        trials.append(("refixed", (), dict(kw, **{jg.name(v): fixedvals[v]})))
+        break
     for what, a, k in trials:
         try:
             out = obj.logd(*a, **k)
